@@ -186,11 +186,63 @@ func ruleSeq(p *Program, r *Result) {
 			}
 			res := f.Signature.Results()
 			if res.Len() == 2 && typeIs(res.At(0).Type(), modPath, "Handler") && isErrorType(res.At(1).Type()) {
-				ruleSeqLookup(p, r, p.view(f))
+				ruleSeqLookup(p, r, p.view(seqLookupBehind(p, f, 3)))
 			}
 		}
 	}
 	r.floor("R-SEQ", 5)
+}
+
+// seqLookupBehind: f is what the connection loop calls to find the handler of a packet. When f does not consult
+// the table itself but hands its header on to one function of the same result shape (a wrapper that also
+// registers new flows, say), that function is the lookup.
+func seqLookupBehind(p *Program, f *ssa.Function, depth int) *ssa.Function {
+	if depth == 0 {
+		return f
+	}
+	v := p.view(f)
+	var hdr *ssa.Parameter
+	for _, pr := range v.Params {
+		if typeIs(pr.Type(), modPath, "Header") {
+			hdr = pr
+		}
+	}
+	if hdr == nil {
+		return f
+	}
+	for _, b := range v.Blocks {
+		for _, in := range b.Instrs {
+			if lk, ok := in.(*ssa.Lookup); ok {
+				if _, isMap := lk.X.Type().Underlying().(*types.Map); isMap && isFieldOfParam(lk.Index, hdr, "SessionID") {
+					return f
+				}
+			}
+		}
+	}
+	var inner []*ssa.Function
+	for _, c := range allCalls(v) {
+		g := c.Common().StaticCallee()
+		if g == nil || g.Blocks == nil {
+			continue
+		}
+		res := g.Signature.Results()
+		if res.Len() != 2 || !typeIs(res.At(0).Type(), modPath, "Handler") || !isErrorType(res.At(1).Type()) {
+			continue
+		}
+		passes := false
+		for _, a := range c.Common().Args {
+			if a == ssa.Value(hdr) {
+				passes = true
+			}
+		}
+		if passes {
+			inner = append(inner, g)
+		}
+	}
+	if len(inner) != 1 {
+		return f
+	}
+	return seqLookupBehind(p, p.orig(inner[0]), depth-1)
 }
 
 func ruleSeqLookup(p *Program, r *Result, f *ssa.Function) {
